@@ -161,10 +161,22 @@ class Gen:
                 return List([self.trace(self.expr(sc, self.any_kind() if r.random() < 0.3 else "num", depth - 1))
                              for _ in range(r.randrange(0, 4))])
             if c < 0.5:
-                return Bin("+", self.expr(sc, "list", depth - 1), self.expr(sc, "list", depth - 1))
+                # joins create new lists: operands are often existing variables or empty lists, so that
+                # aliasing between the result and an operand would be visible after a later mutation
+                def side():
+                    vs = sc.of_kind("list")
+                    q = r.random()
+                    if vs and q < 0.5:
+                        return Id(r.choice(vs))
+                    if q < 0.7:
+                        return List([])
+                    return self.expr(sc, "list", depth - 1)
+                return Bin("+", side(), side())
             if c < 0.65:
-                a = r.choice([0, 0, 1, 2])
-                return Idx(self.expr(sc, "list", depth - 1), Range(Int(a), Int(a + r.choice([0, 1, 2])), r.random() < 0.3))
+                a = r.choice([0, 0, 0, 1, 2])
+                vs = sc.of_kind("list")
+                base = Id(r.choice(vs)) if vs and r.random() < 0.5 else self.expr(sc, "list", depth - 1)
+                return Idx(base, Range(Int(a), Int(a + r.choice([0, 1, 2])), r.random() < 0.3))
             if c < 0.72:
                 return MCall(self.expr(sc, "tuple", depth - 1), "to_list", [])
             return self.leaf(sc, "list")
@@ -189,7 +201,15 @@ class Gen:
                 ks = list(dict.fromkeys(ks))
                 return Map(ks, [self.trace(self.expr(sc, "num", depth - 1)) for _ in ks])
             if c < 0.65:
-                return Bin("+", self.expr(sc, "map", depth - 1), self.expr(sc, "map", depth - 1))
+                def mside():
+                    vs = sc.of_kind("map")
+                    q = r.random()
+                    if vs and q < 0.5:
+                        return Id(r.choice(vs))
+                    if q < 0.7:
+                        return Map([], [])
+                    return self.expr(sc, "map", depth - 1)
+                return Bin("+", mside(), mside())
             return self.leaf(sc, "map")
         if kind == "range":
             if r.random() < 0.5:
@@ -229,9 +249,42 @@ class Gen:
         sc.vars[name] = kind
         return Asg(name, e)
 
+    def alias_probe(self, sc):
+        """w = <derivation of a container variable>; mutate w. Sharing (plain assignment) versus the
+        derivations the guide says create new containers (+, slices, copy) shows in the final prints."""
+        r = self.r
+        kind = r.choice(["list", "list", "map"])
+        vs = sc.of_kind(kind)
+        pre = []
+        if not vs:
+            v = sc.fresh()
+            sc.vars[v] = kind
+            pre.append(Asg(v, List([Int(1), Int(2)]) if kind == "list" else Map(["a"], [Int(1)])))
+        else:
+            v = r.choice(vs)
+        w = sc.fresh()
+        sc.vars[w] = kind
+        if kind == "list":
+            e = r.choice([lambda: Id(v), lambda: Bin("+", Id(v), List([])), lambda: Bin("+", List([]), Id(v)),
+                          lambda: Bin("+", Id(v), Id(v)), lambda: Idx(Id(v), Range(Int(0), Core("size", [Id(v)]))),
+                          lambda: Core("copy", [Id(v)]), lambda: MCall(MCall(Id(v), "to_tuple", []), "to_list", [])])()
+            mut = r.choice([lambda: MCall(Id(w), "push", [Int(r.choice([7, 8, 9]))]),
+                            lambda: IAsg(Id(w), Int(0), Int(r.choice([70, 80]))),
+                            lambda: MCall(Id(w), "pop", []), lambda: MCall(Id(w), "clear", [])])()
+        else:
+            e = r.choice([lambda: Id(v), lambda: Bin("+", Id(v), Map([], [])), lambda: Bin("+", Map([], []), Id(v)),
+                          lambda: Core("copy", [Id(v)])])()
+            mut = r.choice([lambda: MCall(Id(w), "insert", [Str("z"), Int(r.choice([7, 8]))]),
+                            lambda: DAsg(Id(w), "a", Int(r.choice([70, 80]))),
+                            lambda: MCall(Id(w), "remove", [Str("a")])])()
+        target_frozen = w in sc.frozen or v in sc.frozen
+        return Block(pre + [Asg(w, e)] + ([] if target_frozen else [mut]))
+
     def stmt(self, sc, depth, in_loop):
         r = self.r
         c = r.random()
+        if r.random() < 0.07:
+            return self.alias_probe(sc)
         if depth <= 0:
             c = c * 0.5
         if c < 0.22:
@@ -245,9 +298,9 @@ class Gen:
                     e = self.lit_num()
                 return OpAsg(v, r.choice(["+", "-", "*", "/", "%"]), e)
             return self.assign(sc, 2)
-        if c < 0.36:
+        if c < 0.34:
             return Core("print", [self.expr(sc, self.any_kind(), 2)])
-        if c < 0.42:
+        if c < 0.44:
             vs = sc.mutable("list")
             if vs:
                 v = r.choice(vs)
@@ -264,7 +317,7 @@ class Gen:
                     return MCall(Id(v), "remove", [Int(r.choice([0, 1, 4]))])
                 return MCall(Id(v), m, [])
             return self.assign(sc, 2)
-        if c < 0.47:
+        if c < 0.50:
             vs = sc.mutable("map")
             if vs:
                 v = r.choice(vs)
@@ -278,7 +331,7 @@ class Gen:
                     return DAsg(Id(v), key, self.expr(sc, "num", 1))
                 return MCall(Id(v), "insert", [Str(key), self.expr(sc, "num", 1)])
             return self.assign(sc, 2)
-        if c < 0.50:
+        if c < 0.53:
             ns = [sc.fresh() for _ in range(r.randrange(2, 4))]
             if r.random() < 0.3:
                 ns[r.randrange(len(ns))] = "_"
@@ -304,7 +357,10 @@ class Gen:
         """A block; assignments made inside do not count as definitely assigned outside."""
         inner = Scope(sc)
         k = n if n is not None else self.r.randrange(1, 4)
-        xs = [self.stmt(inner, depth - 1, in_loop) for _ in range(k)]
+        xs = []
+        for _ in range(k):
+            st = self.stmt(inner, depth - 1, in_loop)
+            xs += st["xs"] if st["k"] == "block" else [st]
         # kinds of outer variables re-assigned inside become unknown outside
         for v, kd in inner.vars.items():
             if v in sc.vars and sc.vars[v] != kd:
